@@ -113,14 +113,14 @@ def invariant_violations(u: Universe):
     return out
 
 
-def snapshot(u: Universe):
+def snapshot(u: Universe, ids=True):
     """Every observable property of every object of the universe (C06: a rejected edit changes none of them)."""
     nm = u.nm
     s = {}
     for v in u.values:
         s[nm(v)] = ("value", v._name, nm(v._graph), v._is_graph_input, v._is_graph_output, v._is_initializer,
                     nm(v._producer), v._index, tuple((nm(x.node), x.idx) for x in v._uses),
-                    id(v._const_value) if v._const_value is not None else None,
+                    (id(v._const_value) if ids else "tensor") if v._const_value is not None else None,
                     getattr(v._const_value, "name", None), repr(v._type), repr(v._shape), v.doc_string)
     for n in u.nodes:
         s[nm(n)] = ("node", n._name, nm(n._graph), tuple(nm(x) for x in n._inputs), tuple(nm(x) for x in n._outputs),
